@@ -3,6 +3,7 @@
 package main
 
 import (
+	"go/types"
 	"fmt"
 	"os"
 	"sort"
@@ -14,9 +15,15 @@ type checkFn func(c *Ctx)
 // Ctx is what a property check gets.
 type Ctx struct {
 	Repo *Repo
+	// Raw: the tree as written (Repo is the helper-inlined view of it); rules that judge every function on its own
+	// (error discipline) use this one
+	Raw *Repo
 	Rep  *Report
 	Tier string
 	R    *Sweeper
+	// GDecls: the function declarations of Repo for abstract evaluation inside Engine G rules (= R.decls unless Repo is the
+	// helper-inlined view)
+	GDecls map[*types.Func]*VFunc
 }
 
 type checkDef struct {
@@ -52,6 +59,21 @@ func main() {
 		}
 		sort.Strings(ids)
 		fmt.Println(strings.Join(ids, " "))
+	case "funcs":
+		// prints the keys of all functions of the driver packages (used to regenerate baseline_funcs.go)
+		repo, err := loadRepo()
+		if err != nil {
+			fmt.Fprintln(os.Stderr, err)
+			os.Exit(2)
+		}
+		var ks []string
+		for fn, fi := range repo.Decls {
+			if fi.Pkg.Name == "main" || fi.Pkg.Name == "derive" {
+				ks = append(ks, funcKey(fn))
+			}
+		}
+		sort.Strings(ks)
+		fmt.Println(strings.Join(ks, "\n"))
 	case "residuals":
 		// debugging aid: print the residual programs of a plugin
 		cmdResiduals(os.Args[2:])
@@ -87,8 +109,26 @@ func runCheck(id, tier string) (code int) {
 	}
 	rep.analysed("packages", len(repo.Pkgs))
 	rep.analysed("functions", len(repo.Decls))
-	ctx := &Ctx{Repo: repo, Rep: rep, Tier: tier}
+	ctx := &Ctx{Repo: repo, Raw: repo, Rep: rep, Tier: tier}
+	// Engine R interprets the plugins as written; Engine G looks at the driver with calls to helpers that are not part of
+	// the baseline inlined (normalise.go). On the baseline tree both are the same object.
 	ctx.R = newSweeper(repo, tier)
+	if os.Getenv("GDV_NO_INLINE") == "" {
+		g, notes := normaliseRepo(repo)
+		ctx.Repo = g
+		for _, n := range notes {
+			rep.note("%s", n)
+		}
+	}
+	ctx.GDecls = ctx.R.decls
+	if ctx.Repo != repo {
+		ctx.GDecls = map[*types.Func]*VFunc{}
+		for fn, fi := range ctx.Repo.Decls {
+			if fi.Decl.Body != nil {
+				ctx.GDecls[fn] = &VFunc{Decl: fi.Decl, Pkg: fi.Pkg}
+			}
+		}
+	}
 	func() {
 		defer func() {
 			if e := recover(); e != nil {
